@@ -231,6 +231,48 @@ def probe_points_deduplicated(A, T, C):
     return all(len(c) == len(set(c)) for c in captured)
 
 
+def probe_points_keyed_by_coordinates(A, T, C):
+    """live: does find_pairs look atoms / types / residues up through dictionaries keyed by the coordinate tuple (two
+    points with identical coordinates collide, the later one wins for both) or by point index?  A donor C2 of an
+    adenine and the OP1 atoms of two other residues placed on the SAME coordinates; a stand-in KDTree reports the index
+    pair (C2, first OP1) only.  The base-phosphate contact is attributed to the second residue exactly when the maps
+    are keyed by coordinates.  None when the probe cannot be carried out."""
+    class Spy:
+        def __init__(self, coords, *a, **kw):
+            self.n = len(list(coords))
+
+        def query_pairs(self, r, *a, **kw):
+            return {(0, 1)} if self.n == 3 else set()
+
+    if not hasattr(A, "KDTree"):
+        return None
+
+    def res(num, base, atoms):
+        lab = C.ResidueLabel("A", num, base)
+        auth = C.ResidueAuth("A", num, None, base)
+        ats = tuple(T.Atom(None, lab, auth, 1, n, float(p[0]), float(p[1]), float(p[2]), None) for n, p in atoms.items())
+        return T.Residue3D(lab, auth, 1, base, ats)
+    old = A.KDTree
+    A.KDTree = Spy
+    try:
+        ra = res(1, "A", {"C2": (0.0, 0.0, 0.0)})
+        rx = res(2, "G", {"OP1": (3.0, 0.0, 0.0)})
+        ry = res(3, "G", {"OP1": (3.0, 0.0, 0.0)})
+        out = A.find_pairs(T.Structure3D([ra, rx, ry]))
+        bph = list(out[1])
+    except Exception:
+        return None
+    finally:
+        A.KDTree = old
+    if len(bph) != 1 or bph[0].nt2.auth is None:
+        return None
+    if bph[0].nt2.auth.number == 3:
+        return True
+    if bph[0].nt2.auth.number == 2:
+        return False
+    return None
+
+
 def merge_rules(ctx, A, T, C, classes):
     """live: for every unordered pair of classes {a,b}: merged class c when the two on one residue pair become a third"""
     r1 = _mk_residue(T, C, "A", {"N1": (0, 0, 0)})
@@ -364,6 +406,14 @@ def emit(ctx):
                "def cosSqLoEnc : Rat × Rat := (%s, %s)\n" % (rat(lo_enc[0]), rat(lo_enc[1])))
     out.append("/-- the same for cos^2(hbondAngleHi degrees) -/\ndef cosSqHiEnc : Rat × Rat := (%s, %s)\n" % (rat(hi_enc[0]), rat(hi_enc[1])))
     out.append("/-- `if hydrogen_bond_count < K: continue` -/\ndef minHbondCount : Nat := %d\n" % min_count)
+    keyed = probe_points_keyed_by_coordinates(A, T, C)
+    if keyed is None:
+        ctx.lost("annotator.pointsKeyedByCoordinates")
+        keyed = ctx.pin("annotator.pointsKeyedByCoordinates", True)
+    out.append("/-- find_pairs looks up atom / type / residue of a KD-tree point through dictionaries keyed by the coordinate\n"
+               "tuple (two points with identical coordinates collide; the later one wins for both indices); false = keyed by\n"
+               "point index (live probe with two atoms on the same coordinates) -/\n"
+               "def pointsKeyedByCoordinates : Bool := %s\n" % ("true" if keyed else "false"))
     out.append("/-- find_pairs iterates the atom names of a residue without repetition (`dict.fromkeys(acceptors + donors)`);\n"
                "false = `acceptors + donors` with a name listed in both inserted twice -/\ndef pointsDeduplicated : Bool := %s\n" % ("true" if dedup else "false"))
 
